@@ -413,6 +413,14 @@ func main() {
 	}
 	fb.WriteString("end Wasp.Generated.Facts\n")
 	write("Facts.lean", fb.String())
+	lt := extractLockTable()
+	if len(failures) > 0 {
+		for _, f := range failures {
+			fmt.Fprintln(os.Stderr, "extract:", f)
+		}
+		os.Exit(1)
+	}
+	write("LockTable.lean", lt)
 	fmt.Printf("extract ok: %d facts\n", len(facts))
 }
 
